@@ -125,7 +125,11 @@ Definition frun (R : repo) (ftr : list fop) : repo :=
   fold_left (fun (r : repo) (x : fop) => if snd x then apply r (fst x) else r) ftr R.
 Definition is_save (o : op) : bool := match o with SaveP _ _ | SaveI _ _ => true | _ => false end.
 
-Fixpoint run_okf (pl : plan) (ph : phase) (sf : bool) (R : repo) (ftr : list fop) : bool :=
+Definition is_rmi (o : op) : bool := match o with RmI _ => true | _ => false end.
+Definition is_rmp (o : op) : bool := match o with RmP _ => true | _ => false end.
+
+(* sf: a Save has failed; rif: the removal of an obsolete index has failed *)
+Fixpoint run_okf2 (pl : plan) (ph : phase) (sf rif : bool) (R : repo) (ftr : list fop) : bool :=
   match ftr with
   | [] => true
   | x :: r =>
@@ -133,12 +137,17 @@ Fixpoint run_okf (pl : plan) (ph : phase) (sf : bool) (R : repo) (ftr : list fop
         match step_ok pl ph R (fst x) with
         | None => false
         | Some ph' =>
+            let late := match ph' with PhC => true | _ => false end in
             (* no removal of an obsolete index / old pack after a failed Save *)
-            if sf && match ph' with PhC => true | _ => false end then false
-            else run_okf pl ph' sf (apply R (fst x)) r
+            if sf && late then false
+            (* no removal of an old pack after a failed removal of an obsolete index *)
+            else if rif && late && is_rmp (fst x) then false
+            else run_okf2 pl ph' sf rif (apply R (fst x)) r
         end
-      else run_okf pl ph (sf || is_save (fst x)) R r
+      else run_okf2 pl ph (sf || is_save (fst x)) (rif || is_rmi (fst x)) R r
   end.
+Definition run_okf (pl : plan) (ph : phase) (sf : bool) (R : repo) (ftr : list fop) : bool :=
+  run_okf2 pl ph sf false R ftr.
 
 (* prune has to report an error when a Save or an index removal failed (failed pack removals are
    tolerated: leftover packs cannot damage the repository) *)
